@@ -72,7 +72,9 @@ Section C20.
   Proof. unfold alter_column. destruct (compare_nullable cc mc); destruct (compare_type_col g cc mc);
       destruct (compare_server_default_col g cc mc); simpl; try tauto; intros [<-|[]]; simpl; auto. Qed.
 
-  Lemma ffks_In tn fs f : In f (ffks iname tn fs) -> In f fs /\ iname (NFk tn (f_name f)) = true.
+  Lemma op_nref_dropfk tn x : op_nref (OpDropFk tn (f_name x) (f_named x)) = fkref tn x.
+  Proof. unfold fkref. simpl. destruct (f_named x); auto. Qed.
+  Lemma ffks_In tn fs f : In f (ffks iname tn fs) -> In f fs /\ iname (fkref tn f) = true.
   Proof. unfold ffks. rewrite filter_In. auto. Qed.
 
   Lemma cfk_f_In tn ct mt o : In o (compare_foreign_keys_f io iname tn ct mt) ->
@@ -80,7 +82,7 @@ Section C20.
   Proof. unfold compare_foreign_keys_f. destruct ct as [c|]; [|simpl; tauto]. destruct mt as [m|]; [|simpl; tauto].
     rewrite in_app_iff, !in_flat_map. intros [[x [Hx H]]|[x [Hx H]]].
     - destruct (existsb _ _); [inversion H|]. destruct (io _ _ _) eqn:E; [|inversion H]. destruct H as [<-|[]].
-      apply ffks_In in Hx. split; [simpl; auto|]. split; [|simpl; tauto].
+      apply ffks_In in Hx. rewrite op_nref_dropfk. split; [simpl; auto|]. split; [|tauto].
       apply (accepted_intro (OFk tn x) true _ E).
     - destruct (existsb _ _); [inversion H|]. destruct (io _ _ _) eqn:E; [|inversion H]. destruct H as [<-|[]].
       split; [simpl; auto|]. split; [|simpl; congruence]. apply (accepted_intro (OFk tn x) false _ E).
@@ -316,19 +318,22 @@ Section C20.
       + unfold cons_guard in Hg. rewrite (kfind_nodup k_name x _ Hc Hx) in Hg. cbn in Hg. rewrite obj_removed_f_of; auto. Qed.
 
   (* ============================================================ conservativity, foreign keys *)
-  Lemma kfind_ffks tn n fs : iname (NFk tn n) = true -> kfind f_name n (ffks iname tn fs) = kfind f_name n fs.
-  Proof. intros Hn. unfold kfind, ffks. induction fs as [|a l IH]; simpl; auto.
-    destruct (N.eqb_spec (f_name a) n) as [E|E].
-    - rewrite E, Hn. simpl. rewrite E, N.eqb_refl. auto.
-    - destruct (iname (NFk tn (f_name a))); simpl; auto. apply N.eqb_neq in E. rewrite E. auto. Qed.
+  Lemma fk_by_name_ffks tn mf fs : iname (fkref tn mf) = true -> fk_by_name mf (ffks iname tn fs) = fk_by_name mf fs.
+  Proof. intros Hn. unfold fk_by_name. destruct (f_named mf) eqn:Em; auto. unfold fkref in Hn. rewrite Em in Hn.
+    unfold kfind, ffks. induction fs as [|a l IH]; simpl; auto.
+    destruct (f_named a) eqn:Ea.
+    - destruct (N.eqb_spec (f_name a) (f_name mf)) as [E|E].
+      + unfold fkref at 1. rewrite Ea, E, Hn. simpl. rewrite Ea. simpl. rewrite E, N.eqb_refl. auto.
+      + apply N.eqb_neq in E. destruct (iname (fkref tn a)); simpl; rewrite ?Ea; simpl; rewrite ?E; auto.
+    - destruct (iname (fkref tn a)); simpl; rewrite ?Ea; auto. Qed.
 
   Lemma cfk_conservative tn c m o :
     NoDup (keys f_name (t_fks c)) -> NoDup (keys f_name (t_fks m)) ->
     iname (op_nref o) = true ->
-    (forall mf, o = OpAddFk tn mf -> forallb (fun cf => implb (fk_sig_eqb mf cf) (iname (NFk tn (f_name cf)))) (t_fks c) = true
-                                   /\ io (OFk tn mf) false (option_map (OFk tn) (kfind f_name (f_name mf) (t_fks c))) = true) ->
-    (forall n cf, o = OpDropFk tn n -> kfind f_name n (t_fks c) = Some cf ->
-                  io (OFk tn cf) true (option_map (OFk tn) (kfind f_name n (t_fks m))) = true) ->
+    (forall mf, o = OpAddFk tn mf -> forallb (fun cf => implb (fk_sig_eqb mf cf) (iname (fkref tn cf))) (t_fks c) = true
+                                   /\ io (OFk tn mf) false (option_map (OFk tn) (fk_by_name mf (t_fks c))) = true) ->
+    (forall n nm cf, o = OpDropFk tn n nm -> kfind f_name n (t_fks c) = Some cf ->
+                  io (OFk tn cf) true (option_map (OFk tn) (fk_by_name cf (t_fks m))) = true) ->
     (In o (compare_foreign_keys_f io iname tn (Some c) (Some m)) <-> In o (compare_foreign_keys tn (Some c) (Some m))).
   Proof. intros Hc Hm Hname Gadd Gdrop. unfold compare_foreign_keys_f, compare_foreign_keys. rewrite !in_app_iff, !in_flat_map. split.
     - intros [[x [Hx H]]|[x [Hx H]]].
@@ -342,14 +347,15 @@ Section C20.
         { apply existsb_exists. exists cf. split; auto. unfold ffks. apply filter_In. auto. }
         congruence.
     - intros [[x [Hx H]]|[x [Hx H]]].
-      + left. exists x. destruct (existsb (fk_sig_eqb x) (t_fks m)) eqn:E; [inversion H|]. destruct H as [<-|[]]. simpl in Hname. split.
+      + left. exists x. destruct (existsb (fk_sig_eqb x) (t_fks m)) eqn:E; [inversion H|]. destruct H as [<-|[]].
+        rewrite op_nref_dropfk in Hname. split.
         * unfold ffks. apply filter_In. auto.
-        * rewrite (Gdrop (f_name x) x eq_refl); [left; auto|]. apply kfind_nodup; auto.
+        * rewrite (Gdrop (f_name x) (f_named x) x eq_refl); [left; auto|]. apply kfind_nodup; auto.
       + right. exists x. split; auto. destruct (existsb (fk_sig_eqb x) (t_fks c)) eqn:E; [inversion H|]. destruct H as [<-|[]]. simpl in Hname.
         assert (E': existsb (fk_sig_eqb x) (ffks iname tn (t_fks c)) = false).
         { destruct (existsb (fk_sig_eqb x) (ffks iname tn (t_fks c))) eqn:E2; auto. apply existsb_exists in E2. destruct E2 as [cf [Hcf Hs]].
           apply ffks_In in Hcf. assert (existsb (fk_sig_eqb x) (t_fks c) = true) by (apply existsb_exists; exists cf; tauto). congruence. }
-        rewrite E', kfind_ffks; auto. destruct (Gadd x eq_refl) as [_ Hio]. rewrite Hio. left; auto.
+        rewrite E', fk_by_name_ffks; auto. destruct (Gadd x eq_refl) as [_ Hio]. rewrite Hio. left; auto.
   Qed.
 
   (* ============================================================ conservativity, table level *)
@@ -391,8 +397,8 @@ Section C20.
       - intros n. unfold lk_cons. rewrite Hm. auto. }
     assert (Hfks: In o (compare_foreign_keys_f io iname (t_name m) (Some c) (Some m)) <-> In o (compare_foreign_keys (t_name m) (Some c) (Some m))).
     { apply cfk_conservative; auto.
-      - intros mf ->. simpl in Hg, Htw. unfold lk_fk in Hg. unfold lk_fks in Htw. rewrite Hc in Hg, Htw. auto.
-      - intros n cf -> E. simpl in Hg. unfold lk_fk in Hg. rewrite Hc, Hm, E in Hg. auto. }
+      - intros mf ->. simpl in Hg, Htw. unfold lk_fks in Hg, Htw. rewrite Hc in Hg, Htw. auto.
+      - intros n nm cf -> E. simpl in Hg. unfold lk_fk, lk_fks in Hg. rewrite Hc, Hm, E in Hg. auto. }
     destruct Hcols as [Hpre Hpost].
     split; intros H; pose proof (Htab (or_introl H)) as Ht || pose proof (Htab (or_intror H)) as Ht;
       unfold existing_table_f, existing_table in *; rewrite !in_app_iff in *; specialize (Hcons Ht); tauto.
@@ -477,48 +483,57 @@ Lemma col_eqb_refl c : col_eqb c c = true.
 Proof. unfold col_eqb. rewrite N.eqb_refl, ty_eqb_refl, !eqb_reflx, (opt_eqb_refl dflt_eqb); auto using dflt_eqb_refl. Qed.
 Lemma cons_eqb_refl k : cons_eqb k k = true.
 Proof. destruct k; simpl; rewrite N.eqb_refl, list_eqbN_refl, ?eqb_reflx; auto. Qed.
+Lemma fkopts_eqb_refl o : fkopts_eqb o o = true.
+Proof. unfold fkopts_eqb. rewrite !opt_eqb_refl; auto using list_eqbN_refl, eqb_reflx. Qed.
 Lemma fk_eqb_refl f : fk_eqb f f = true.
-Proof. unfold fk_eqb. rewrite !N.eqb_refl, !list_eqbN_refl. auto. Qed.
+Proof. unfold fk_eqb. rewrite !N.eqb_refl, !list_eqbN_refl, fkopts_eqb_refl, eqb_reflx, orb_true_r. auto. Qed.
 Lemma op_eqb_refl o : op_eqb o o = true.
-Proof. destruct o; simpl; rewrite ?N.eqb_refl, ?col_eqb_refl, ?cons_eqb_refl, ?eqb_reflx, ?ty_eqb_refl, ?fk_eqb_refl; auto.
+Proof. destruct o; simpl; rewrite ?N.eqb_refl, ?col_eqb_refl, ?cons_eqb_refl, ?eqb_reflx, ?ty_eqb_refl, ?fk_eqb_refl, ?orb_true_r; auto.
   - unfold table_equiv. rewrite N.eqb_refl, (list_eqb_refl col_eqb), (mset_eqb_refl cons_eqb), (mset_eqb_refl fk_eqb);
       auto using col_eqb_refl, cons_eqb_refl, fk_eqb_refl.
   - rewrite !opt_eqb_refl; auto using dflt_eqb_refl, ty_eqb_refl, eqb_reflx. intros a. apply opt_eqb_refl. apply dflt_eqb_refl. Qed.
 Lemma inb_of_In o l : In o l -> inb o l = true.
 Proof. intros H. unfold inb. apply existsb_exists. exists o. split; auto. apply op_eqb_refl. Qed.
 
-Definition ob_of (r:nref) : obj :=
-  match r with
-  | NTable t => OTable (mkTable t [] [] [])
-  | NColumn t c => OColumn t (mkCol c (mkTy 0 []) true false None)
-  | NUq t n => OCons t (Uq n [])
-  | NIx t n => OCons t (Ix n [] false)
-  | NFk t n => OFk t (mkFk n [] 0 [])
-  | NSchema => OTable (mkTable 0 [] [] [])
-  end.
-Lemma obj_acceptedb_sound f r : r <> NSchema -> obj_acceptedb f r = true -> obj_accepted (io_of f) r.
-Proof. intros Hr H. unfold obj_acceptedb in H. apply existsb_exists in H. destruct H as [[refl c] [_ H]]. simpl in H.
-  exists (ob_of r), refl, (if c then Some (ob_of r) else None).
-  assert (Hor: obj_ref (ob_of r) = r) by (destruct r; simpl; auto; exfalso; apply Hr; reflexivity). split; auto.
-  unfold io_of. rewrite Hor. destruct c; simpl; auto. Qed.
-Lemma op_nref_not_schema o : op_nref o <> NSchema.
-Proof. destruct o; simpl; try discriminate. - destruct k; unfold kref; simpl; discriminate. - destruct ix; discriminate. Qed.
+Lemma nref_eqb_eq a b : nref_eqb a b = true -> a = b.
+Proof. destruct a, b; simpl; try congruence; rewrite ?andb_true_iff, ?N.eqb_eq; intuition congruence. Qed.
+Lemma objs_of_ref S r ob : In ob (objs_of S r) -> obj_ref ob = r.
+Proof. destruct r as [|t|t c|t n|t n|t n|t]; simpl; try tauto.
+  - destruct (kfind t_name t S) eqn:E; simpl; [|tauto]. intros [<-|[]]. apply kfind_some in E. simpl. f_equal. tauto.
+  - unfold lk_col. destruct (kfind t_name t S); [|simpl; tauto]. destruct (kfind c_name c (t_cols t0)) eqn:E; simpl; [|tauto].
+    intros [<-|[]]. apply kfind_some in E. simpl. f_equal. tauto.
+  - unfold lk_cons. destruct (kfind t_name t S); [|simpl; tauto]. destruct (kfind k_name n (t_cons t0)) eqn:E; simpl; [|tauto].
+    destruct (nref_eqb (kref t c) (NUq t n)) eqn:Ek; simpl; [|tauto]. intros [<-|[]]. simpl. apply nref_eqb_eq; auto.
+  - unfold lk_cons. destruct (kfind t_name t S); [|simpl; tauto]. destruct (kfind k_name n (t_cons t0)) eqn:E; simpl; [|tauto].
+    destruct (nref_eqb (kref t c) (NIx t n)) eqn:Ek; simpl; [|tauto]. intros [<-|[]]. simpl. apply nref_eqb_eq; auto.
+  - unfold lk_fk. destruct (kfind t_name t S); [|simpl; tauto]. destruct (kfind f_name n (t_fks t0)) eqn:E; simpl; [|tauto].
+    destruct (f_named f) eqn:En; simpl; [|tauto].
+    intros [<-|[]]. apply kfind_some in E. simpl. unfold fkref. rewrite En. f_equal. tauto.
+  - intros H. apply in_map_iff in H. destruct H as [x [<- Hx]]. apply filter_In in Hx. destruct Hx as [_ Hx]. apply negb_true_iff in Hx.
+    simpl. unfold fkref. rewrite Hx. auto.
+Qed.
+Lemma obj_acceptedb_sound f conn meta r : obj_acceptedb f conn meta r = true -> obj_accepted (io_of f) r.
+Proof. unfold obj_acceptedb. intros H. apply existsb_exists in H. destruct H as [ob [Hob H]].
+  apply existsb_exists in H. destruct H as [refl [_ H]]. apply existsb_exists in H. destruct H as [cmp [_ H]].
+  exists ob, refl, cmp. split; auto. apply in_app_iff in Hob. destruct Hob as [Hob|Hob]; eapply objs_of_ref; eauto. Qed.
 
 Theorem check_C20_sound i out : check_C20 i out = true -> C20_holds i out.
 Proof. destruct i as [[A B] f]. unfold check_C20, C20_holds. rewrite !andb_true_iff, !forallb_forall. intros [[H1 H2] H3].
   split; [|split; auto].
   - intros o Ho. specialize (H1 o Ho). apply andb_true_iff in H1. destruct H1 as [Ha Hb].
-    split; apply obj_acceptedb_sound; auto; [apply op_nref_not_schema|congruence].
+    split; eapply obj_acceptedb_sound; eauto.
   - intros o Ho Hd. specialize (H2 o Ho). rewrite Hd in H2. simpl in H2. rewrite !andb_true_iff in H2. tauto. Qed.
 
 Lemma nd_schema_reflect A : nd_schema A -> nd_schema (reflect_sqlite A).
 Proof. intros [H1 H2]. split.
   - unfold reflect_sqlite. rewrite (keys_map t_name reflect_table reflect_table_name). auto.
   - intros t Ht. unfold reflect_sqlite in Ht. apply in_map_iff in Ht. destruct Ht as [t0 [<- Ht0]]. destruct (H2 t0 Ht0) as [[Ha Hb] Hc].
-    split; [split|]; cbn [reflect_table t_cols t_cons t_fks]; auto. rewrite (keys_map c_name reflect_col reflect_col_name). auto. Qed.
+    split; [split|]; cbn [reflect_table t_cols t_cons t_fks]; auto.
+    + rewrite (keys_map c_name reflect_col reflect_col_name). auto.
+    + rewrite (keys_map f_name reflect_fk reflect_fk_name). auto. Qed.
 
 Theorem model_C20_holds i : inclass_C20 i = true -> C20_holds i (model_C20 i).
-Proof. destruct i as [[A B] f]. unfold inclass_C20. simpl. intros Hin. apply inclass_C06_wf in Hin. simpl in Hin. destruct Hin as [HA [HB _]].
+Proof. destruct i as [[A B] f]. unfold inclass_C20. simpl. intros Hin. apply inclass_C06_core_wf in Hin. simpl in Hin. destruct Hin as [HA HB].
   apply wf_nd_schema in HA. apply wf_nd_schema in HB. apply nd_schema_reflect in HA. split; [|split].
   - intros o Ho. apply (diff_f_In _ _ _ _ _ _ Ho).
   - intros o Ho. apply (diff_f_In _ _ _ _ _ _ Ho).
